@@ -207,7 +207,14 @@ def run_cases(tag, imports, defs, cases, chunk=400, timeout=600):
             fh.write("Local Open Scope float_scope.\n")
             for d in defs:
                 fh.write(d + "\n")
+            seen = set()
             for i, c in enumerate(sub):
+                if isinstance(c, tuple):      # (private definitions, expression)
+                    for d in c[0]:
+                        if d not in seen:
+                            seen.add(d)
+                            fh.write(d + "\n")
+                    c = c[1]
                 fh.write("Definition c%d : bool := %s.\n" % (i, c))
             # chunk the list of case names so that no literal is huge
             fh.write("Definition allc : list bool := [%s].\n" % "; ".join("c%d" % i for i in range(len(sub))))
